@@ -4,8 +4,7 @@ import (
 	"fmt"
 	"go/types"
 	"sort"
-	"strconv"
-	"strings"
+		"strings"
 
 	"golang.org/x/tools/go/ssa"
 
@@ -25,22 +24,19 @@ type EmitterRoles struct {
 	Methods                                                 []*ssa.Function // exported methods, sorted
 }
 
-func fieldOfKey(key, obj string) int {
-	// entry keys look like "<obj>.f7" (possibly inside len(...))
-	i := strings.Index(key, obj+".f")
+// fieldOfKey extracts the struct field an entry key like "a.address" (possibly inside
+// len(...)) refers to.
+func fieldOfKey(st *types.Struct, key, obj string) int {
+	i := strings.Index(key, obj+".")
 	if i < 0 {
 		return -1
 	}
-	rest := key[i+len(obj)+2:]
+	rest := key[i+len(obj)+1:]
 	j := 0
-	for j < len(rest) && rest[j] >= '0' && rest[j] <= '9' {
+	for j < len(rest) && (rest[j] == '_' || rest[j] >= '0' && rest[j] <= '9' || rest[j] >= 'a' && rest[j] <= 'z' || rest[j] >= 'A' && rest[j] <= 'Z') {
 		j++
 	}
-	n, err := strconv.Atoi(rest[:j])
-	if err != nil {
-		return -1
-	}
-	return n
+	return fieldIndex(st, rest[:j])
 }
 
 func emitterRoles(ctx *Ctx) *EmitterRoles {
@@ -116,7 +112,7 @@ func emitterRoles(ctx *Ctx) *EmitterRoles {
 		if res == nil {
 			return -1
 		}
-		return fieldOfKey(absint.ValKey(res), "a")
+		return fieldOfKey(st, absint.ValKey(res), "a")
 	}
 	r.N = getter("Len")
 	r.Address = getter("PC")
@@ -126,7 +122,7 @@ func emitterRoles(ctx *Ctx) *EmitterRoles {
 		ip.Call(fn, []absint.Val{recv, &absint.Str{Key: "name"}}, nil, &absint.State{Heap: absint.NewHeap(nil)})
 		for _, ev := range ip.Events {
 			if ev.Kind == "map-lookup" {
-				r.Labels = fieldOfKey(absint.ValKey(ev.Args[0]), "a")
+				r.Labels = fieldOfKey(st, absint.ValKey(ev.Args[0]), "a")
 			}
 		}
 	}
